@@ -3,6 +3,7 @@ package main
 import (
 	"net/http"
 	"sort"
+	"strings"
 
 	"connectrpc.com/vanguard"
 	testv1 "connectrpc.com/vanguard/internal/gen/vanguard/test/v1"
@@ -97,10 +98,73 @@ func init() {
 				req.Target = pick(r, []string{"/", "/unknown.Service/Method", "/" + cfg.Service + "/Nope", "/static/app.js?v=3", "/v9/none", "/a%2Fb/c%20d"})
 				tag = "unmatched"
 			}
-			if r.chance(1, 3) {
+			if r.chance(1, 3) && !strings.HasPrefix(tag, "needs-message") {
 				// bytes that are not valid in the protocol must be forwarded untouched as well
 				req.Chunks = [][]byte{pick(r, rawBodies)}
 				tag += "+rawbody"
+			}
+			expectReject := false
+			if r.chance(1, 6) {
+				// the request line of the backend request needs the leading message (REST-only service):
+				// an undecodable or unfinished leading message must be rejected without any dispatch
+				cfg = e2eConfig{Service: libraryService, Protocols: []vanguard.Protocol{vanguard.ProtocolREST}, Unknown: cfg.Unknown}
+				form = pick(r, []int{formGRPC, formGRPCWeb, formConnectPost})
+				meth := pick(r, []rpcMethod{{Service: libraryService, Name: "ListShelves"}, {Service: libraryService, Name: "CreateShelf"}, methGetBook})
+				var msg proto.Message
+				switch meth.Name {
+				case "ListShelves":
+					msg = &testv1.ListShelvesRequest{PageSize: 3}
+				case "CreateShelf":
+					msg = &testv1.CreateShelfRequest{Shelf: &testv1.Shelf{}}
+				default:
+					msg = &testv1.GetBookRequest{Name: bookName("s", "b")}
+				}
+				spec = clientSpec{Form: form, Codec: codec, Method: meth, Msgs: [][]byte{marshal(codec, msg)}, Flags: []bool{true}}
+				req = spec.build()
+				tag = "needs-message"
+				full := req.Chunks
+				var fb []byte
+				for _, ch := range full {
+					fb = append(fb, ch...)
+				}
+				switch r.intn(5) {
+				case 0: // intact
+				case 1: // only an envelope announcing a payload that never comes
+					if formEnveloped(form) {
+						req.Chunks = [][]byte{{0, 0, 0, 0, byte(1 + r.intn(30))}}
+						expectReject = true
+						tag += "+envelope-only"
+					}
+				case 2: // cut inside the payload
+					if len(fb) > 6 {
+						cut := 6 + r.intn(len(fb)-6)
+						if formEnveloped(form) {
+							req.Chunks = [][]byte{fb[:cut]}
+							expectReject = true
+							tag += "+cut"
+						}
+					}
+				case 3: // undecodable payload
+					junk := []byte{0xff, 0xff, 0xff, 0xff, 0x0f, 0x01}
+					if codec == "json" {
+						junk = []byte(`{"name": `)
+					}
+					if formEnveloped(form) {
+						req.Chunks = [][]byte{envelope(0, junk)}
+					} else {
+						req.Chunks = [][]byte{junk}
+					}
+					expectReject = true
+					tag += "+garbage"
+				case 4: // illegal flag
+					if formEnveloped(form) && len(fb) > 0 {
+						mod := append([]byte(nil), fb...)
+						mod[0] = 0x42
+						req.Chunks = [][]byte{mod}
+						expectReject = true
+						tag += "+badflag"
+					}
+				}
 			}
 			var body []byte
 			for _, ch := range req.Chunks {
@@ -162,7 +226,7 @@ func init() {
 			} else if res.Unknown.Calls > 0 {
 				kind = "unknown"
 			}
-			c.emit(Case{Suite: "serve.dispatch", In: L{tconfV(cfg), in2, Bb(body), rr.value()}, Out: out,
+			c.emit(Case{Suite: "serve.dispatch", In: L{tconfV(cfg), in2, Bb(body), rr.value(), expectReject}, Out: out,
 				Tags: []string{"dispatch:" + tag, "dispatch.outcome:" + kind, "dispatch.form:" + formNames[form]}, Desc: res.Panic})
 		}
 	}
